@@ -11,14 +11,15 @@ func GenHistory(t *rapid.T, maxOps int, bias17 bool) (Config, []Op) {
 		DefaultExpiration: rapid.IntRange(0, 4).Draw(t, "defaultExp") == 0,
 		BrokerInit:        rapid.IntRange(0, 3).Draw(t, "brokerInit") != 0,
 		HugeExp:           rapid.IntRange(0, 7).Draw(t, "hugeExp") == 0,
+		ViaController:     rapid.IntRange(0, 3).Draw(t, "closeViaController") == 0,
 	}
 	ids := []string{"a", "b", "c"}
 	opGen := rapid.Custom(func(t *rapid.T) Op {
 		var k int
 		if bias17 {
-			k = rapid.SampledFrom([]int{0, 0, 0, 0, 0, 0, 1, 2, 2, 2, 2, 3, 4, 5, 6, 0, 0, 2, 7, 8, 9, 11, 11, 12}).Draw(t, "k")
+			k = rapid.SampledFrom([]int{0, 0, 0, 0, 0, 0, 1, 2, 2, 2, 2, 3, 4, 5, 6, 0, 0, 2, 7, 8, 9, 11, 11, 12, 13, 14}).Draw(t, "k")
 		} else {
-			k = rapid.SampledFrom([]int{0, 0, 0, 0, 0, 0, 0, 0, 1, 2, 2, 2, 3, 4, 5, 6, 7, 8, 9, 10, 11, 12}).Draw(t, "k")
+			k = rapid.SampledFrom([]int{0, 0, 0, 0, 0, 0, 0, 0, 1, 2, 2, 2, 3, 4, 5, 6, 7, 8, 9, 10, 11, 12, 13, 14}).Draw(t, "k")
 		}
 		switch k {
 		case 0:
@@ -47,6 +48,10 @@ func GenHistory(t *rapid.T, maxOps int, bias17 bool) (Config, []Op) {
 			return Op{K: OpArmGateable}
 		case 12:
 			return Op{K: OpArmNil}
+		case 13:
+			return Op{K: OpArmGateableNoID}
+		case 14:
+			return Op{K: OpArmSendWarn}
 		case 11:
 			return Op{K: OpSetExp, Tick: rapid.IntRange(0, 3).Draw(t, "newExp")}
 		default:
